@@ -86,7 +86,7 @@ type vC04Emission struct {
 
 func TestVerif_C04_fullrt(t *testing.T) {
 	vh.Run(t, vh.Spec{Prop: "C04", Unit: "fullrt", Quick: 600, Thorough: 20000, CostMs: 8,
-		Rule: "FullRT over a simulated network (1-30 crawled peers, K in {1,2,3,5,8,20}; 0-50% failing/silent/late) with a generated validator (value bound to its key, total rank order, optional expiry instant); each peer holds for the key: a valid record of rank 1-6, an expired one, a malformed one, one whose value was made for another key, one filed under another key, an empty one, or nothing; local store: nothing, a valid record, or a record that was valid when stored and is rejected by the validator when the search runs (clock advanced past its expiry); quorum option in {absent,0,1,2,K}; SearchValue (every emission time-stamped) or GetValue, un-cancelled, virtual time; non-trivial = at least 2 records were supplied and at least one of them was not acceptable, or at least 2 values were emitted; distinct by (shape, record mix, arrival order of the answers)",
+		Rule:    "FullRT over a simulated network (1-30 crawled peers, K in {1,2,3,5,8,20}; 0-50% failing/silent/late) with a generated validator (value bound to its key, total rank order, optional expiry instant); each peer holds for the key: a valid record of rank 1-6, an expired one, a malformed one, one whose value was made for another key, one filed under another key, an empty one, or nothing; local store: nothing, a valid record, or a record that was valid when stored and is rejected by the validator when the search runs (clock advanced past its expiry); quorum option in {absent,0,1,2,K}; SearchValue (every emission time-stamped) or GetValue, un-cancelled, virtual time; non-trivial = at least 2 records were supplied and at least one of them was not acceptable, or at least 2 values were emitted; distinct by (shape, record mix, arrival order of the answers)",
 		Clauses: []string{"yielded-valid", "strictly-improving", "yielded-was-supplied", "final-at-least-best-supplied", "not-found-iff-nothing-valid"}},
 		func(c *vh.Case) {
 			sc := vC04Gen(c)
